@@ -130,6 +130,27 @@ def check_C20(tier):
                 open(os.path.join(d, "recreate.sh"), "w").write(JUNK)
                 p = subprocess.run([cli, "audit2bash", target + ".audit.json", "recreate.sh"], cwd=d, capture_output=True, text=True)
                 script = open(os.path.join(d, "recreate.sh")).read()
+                # listing of the real record: every task of the lineage (distinct by process and command) exactly once, in all three formats
+                from collections import Counter
+                def walk(rec, acc):
+                    if rec.get("Command"): acc.add((rec.get("ProcessName"), rec.get("Command")))
+                    for u in (rec.get("Upstream") or {}).values(): walk(u, acc)
+                    return acc
+                try: lineage = walk(json.load(open(os.path.join(d, target + ".audit.json"))), set())
+                except (OSError, ValueError): lineage = None
+                if lineage is not None:
+                    want_names = Counter(n for n, _ in lineage)
+                    for fmt in ("sh", "html", "tex"):
+                        if fmt == "sh": text = script
+                        else:
+                            subprocess.run([cli, "audit2" + fmt, target + ".audit.json", "rep." + fmt], cwd=d, capture_output=True, text=True)
+                            try: text = open(os.path.join(d, "rep." + fmt)).read()
+                            except OSError: text = ""
+                        if fmt == "sh": got_names = Counter(x for x in listing("sh", text) if x)
+                        else: got_names = Counter(pn for pn, cm in lineage for _ in range(text.count(cm if fmt == "html" else cm.replace("_", "\\_"))))
+                        if got_names != want_names:
+                            chk.violation("audit2%s of %s (%s) does not list every task of the lineage exactly once: listed %s, lineage %s"
+                                          % ("bash" if fmt == "sh" else fmt, target, label, dict(got_names), dict(want_names)), dict(instance=inst, format=fmt)); break
                 rmtree(d2); os.makedirs(os.path.join(d2, "in"))
                 for f in os.listdir(os.path.join(d, "in")): shutil.copy(os.path.join(d, "in", f), os.path.join(d2, "in", f))
                 env = dict(os.environ, VERIF_HELPER=os.path.join(HARNESS, "cmdhelper.sh")); env.pop("VERIF_CMDLOG", None); env.pop("VERIF_CTL", None)
@@ -173,6 +194,22 @@ def check_C20(tier):
                      dict(name="cat", kind="cmd", ins=["in"], outs=["out"], joins={"in": " "}, outpaths={"out": "./merged.txt"}, arg="cat {i:in|join: } > {o:out}")],
               edges=[zoo.E("s.out", "a.in"), zoo.E("a.out", "ss.in"), zoo.E("ss.substream", "cat.in")])
     recreate(w5, "joined in-port fed by a sub-stream of three files")
+    # both outputs of one task end in the same file's lineage (the task must be listed once)
+    w6 = dict(name="RC6", max=2, bufsize=2,
+              procs=[zoo.src("s", ["1", "2"]), dict(name="sp", kind="cmd", ins=["in"], outs=["o1", "o2"], outdir="./"), dict(name="up", kind="cmd", ins=["x"], outs=["out"], outdir="./"),
+                     dict(name="mg", kind="cmd", ins=["l", "r"], outs=["out"], outdir="./")],
+              edges=[zoo.E("s.out", "sp.in"), zoo.E("sp.o1", "up.x"), zoo.E("up.out", "mg.l"), zoo.E("sp.o2", "mg.r")])
+    recreate(w6, "two outputs of one task reach the same file through different paths")
+    # a diamond plus late side consumers of the intermediate files (they write their records after the join did)
+    w7 = dict(name="RC7", max=4, bufsize=2,
+              procs=[zoo.src("s", ["1"]), dict(name="first", kind="cmd", ins=["in"], outs=["out"], outdir="./"),
+                     dict(name="left", kind="cmd", ins=["x"], outs=["out"], outdir="./"), dict(name="right", kind="cmd", ins=["x"], outs=["out"], outdir="./"),
+                     dict(name="join", kind="cmd", ins=["l", "r"], outs=["out"], outdir="./"),
+                     dict(name="lateleft", kind="cmd", ins=["x"], outs=["out"], outdir="./"), dict(name="lateright", kind="cmd", ins=["x"], outs=["out"], outdir="./")],
+              edges=[zoo.E("s.out", "first.in"), zoo.E("first.out", "left.x"), zoo.E("first.out", "right.x"), zoo.E("left.out", "join.l"), zoo.E("right.out", "join.r"),
+                     zoo.E("left.out", "lateleft.x"), zoo.E("right.out", "lateright.x")],
+              ctl={"lateleft.sleep": "0.6", "lateright.sleep": "0.6"})
+    recreate(w7, "diamond with late side consumers of the intermediate files")
     recreate(w4, "pipeline with a failing first stage, ';' list with a failing command, unset variable")
     chk.sample(dict(kind="audit-trees", exported_by_tlc=len(cases), converted=len(pick), example=pick[0]["tree"] if pick else None))
     return chk.finish()
